@@ -1204,6 +1204,11 @@ class BlockwiseRequest(BaseUnicastRequest, interfaces.Request):
             last_response = await blockrequest.response
 
             if last_response.opt.block2 is None:
+                if last_response.code.is_successful():
+                    log.error(
+                        "Error assembling blockwise response (Block2 option missing in later block)"
+                    )
+                    raise error.MissingBlock2Option()
                 log.warning(
                     "Server sent non-blockwise response after having started a blockwise transfer. Blockwise transfer cancelled, accepting single response."
                 )
